@@ -262,7 +262,14 @@ def run(ctx):
         ctx.violation(key, "%s  [%d target(s), e.g. %s]" % (lst[0][1][:400], len(lst), lst[0][0]),
                       {"targets": [x for x, _, _ in lst][:40], "text": lst[0][2]})
     if not ctx.samples:
-        ctx.samples = [{"text": n, "target": "%s/abi%s/apparmor%s" % (d, a, v)} for d in ("arch", "opensuse") for (n, t, a, v, c) in per_dist[d][:2]]
+        for d in ("arch", "opensuse", "whonix"):
+            for (n, t, a, v, c) in per_dist[d]:
+                exp_, removed_ = expected(neutralise(t), d, a, v)
+                if removed_ and n.startswith("shipped"):
+                    marks = [l.strip() for l in t.split("\n") if RE_MARK.search(l)][:4]
+                    ctx.samples.append({"input": n, "target": "%s/abi%s/apparmor%s" % (d, a, v), "markers": marks, "guards_false_for_target": removed_,
+                                        "non_blank_lines_expected": len(exp_)})
+                    break
     ctx.extra["shipped_files"] = len(files)
     ctx.extra["targets"] = len(TARGETS)
     ctx.extra["tap_texts"] = len(tap_cases)
